@@ -390,11 +390,20 @@ PROPS = {
     "C10": {"seq": [("malformed", 1024, None, 80, 30), ("malformed", 64, None, 40, 30), ("counter", 1024, None, 30, 40),
                     ("cas", 1024, None, 30, 40)],
             "conn": [("malformed", 100, None, 30, 25)], "relevant": "RSM"},
+    "C11": {"seq": [("mix", 1024, None, 80, 40), ("quiet", 1024, None, 40, 40), ("counter", 1024, None, 40, 40),
+                    ("malformed", 100, None, 40, 30), ("wide", 1024, None, 30, 40)],
+            "conn": [("mix", 1024, None, 20, 25)], "relevant": "RW", "monitor_prefix": "c11_"},
     "C12": {"seq": [("quiet", 1024, None, 60, 40), ("mix", 1024, None, 40, 40), ("malformed", 1024, None, 30, 30)],
             "conn": [("quiet", 1024, None, 30, 25), ("mix", 1024, None, 30, 25)], "relevant": "RS"},
     "C13": {"seq": [("malformed", 100, None, 60, 30), ("malformed", 64, None, 40, 30), ("cuts", 100, None, 30, 30)],
             "conn": [("malformed", 100, None, 40, 25), ("malformed", 1024, None, 20, 25), ("cuts", 64, None, 20, 25)],
             "relevant": "RSM"},
+    "C14": {"seq": [("policy", 1024, 100, 40, 60), ("policy", 1024, 300, 40, 60), ("policy", 1024, 30, 20, 60),
+                    ("policy", 1024, 1000, 30, 60), ("counter", 1024, 120, 20, 50), ("flush", 1024, 200, 20, 50)],
+            "conn": [("policy", 1024, 300, 15, 30)], "relevant": "UMR"},
+    "C15": {"seq": [("policy", 1024, 100000, 40, 80), ("policy", 1024, 400, 40, 60), ("ttl", 1024, 500, 30, 60),
+                    ("flush", 1024, 500, 30, 60), ("cas", 1024, 500, 30, 50), ("counter", 1024, 500, 20, 50)],
+            "relevant": "UMR"},
     "C18": {"seq": [("cuts", 1024, None, 60, 30), ("malformed", 1024, None, 40, 30)],
             "conn": [("cuts", 1024, None, 30, 25), ("malformed", 1024, None, 30, 25), ("mix", 1024, None, 20, 25)],
             "relevant": "RSM"},
@@ -490,6 +499,9 @@ def run_seq_suites(prop, cfg, tier, seed, work, report):
         if st and os.path.exists(st):
             for k, v in json.load(open(st)).items():
                 report["distribution"][k] = report["distribution"].get(k, 0) + v
+                mp = cfg.get("monitor_prefix")
+                if mp and k.startswith(mp) and v > 0:
+                    report["errors"].append("monitor %s fired %d times in suite %s (trace %s)" % (k, v, tag, tout))
         if not report["samples"]:
             cs = split_cases(txt)
             if cs:
